@@ -349,6 +349,10 @@ def judge_consumer(world, h, relaxed):
         if len(dones) > 1:
             world.violate('C03', 'twice', comp, 'express', f'Interest {iid} completed {len(dones)} times')
         a = dones[0]
+        if a['out'] == 'error' and fe == 'v1' and (op.get('validator') or {}).get('raise') == 'timeout' \
+                and a.get('exc') == 'TimeoutError' and h.val_end.get(('express', iid)):
+            # the legacy front-end hands the validator's own exception to the caller as it is (it has no verdict for it)
+            continue
         if a['out'] == 'error':
             world.violate('C03', 'internal-error', comp, a.get('where', '?'),
                           f'Interest {iid} {_fmt_name(ex["name"])} finished with internal error {a.get("msg")}')
